@@ -5,14 +5,20 @@
                 numbered from 0 in every clause (any numbering works; they are renamed apart
                 by adding the run-time counter).  Facts have body  Atom "true".
    solve fuel prog query template : result
-       result := NoFuel | Stuck reason | Done answers ball log
+       result := NoFuel | Stuck reason | Done answers ball log | Prefix answers log
        answers : list term   -- the instances of `template` (a term listing the query variables,
                                 with the answer substitution applied; unbound variables are `Var n`
                                 with arbitrary numbers: compare modulo `canon`) in solution order,
                                 produced before exhaustion or before an uncaught exception
-       ball    : option term -- the uncaught exception, if any
+       ball    : option term -- the uncaught exception, if any (builtin errors are error(Formal, ctx))
        log     : list term   -- the arguments of every executed `log(T)` goal, in execution order
                                 (a side effect that survives backtracking: stands for assertz / bb_put logging)
+       Stuck r : the run needs a cyclic binding (ACyclic: unification is done with occurs check only to keep substitutions
+                 idempotent) or an unsupported construct;  Prefix a l : the run stopped at an arithmetic error whose kind is
+                 ambiguous (several error sources in one expression, see eval_all): a and l are prefixes of the true answers/log
+   check_run fuel prog query template cap observed_answers observed_ball observed_log : N
+       0 equal, 1 different, 2 NoFuel, 3 Stuck, 4 more than cap answers, 5 agrees on the Prefix  (observed terms variant-normalised,
+       error contexts replaced by `ctx`); default_fuel = 300
    solve_raw  : the same run as an `outcome` = (list event, signal)   (events: EAns t | ELog t)
    exec fuel prog goal cutbarrier state continuation : outcome  -- the interpreter itself
    exec_step  : one unfolding of exec over an arbitrary `exec_t` for the subgoals
